@@ -263,12 +263,13 @@ class TreePass(BasePass):
     """The root of a task tree, run as a workflow pass of a real
     CompilationTask."""
 
-    def __init__(self, tree: list, key: str = 'out') -> None:
+    def __init__(self, tree: list, key: str = 'out', root: str = 'r') -> None:
         self.tree = tree
         self.key = key
+        self.root = root
 
     async def run(self, circuit: Any, data: Any) -> None:
-        fn, a = _fn_args(self.tree, 'r')
+        fn, a = _fn_args(self.tree, getattr(self, 'root', 'r'))
         if fn is node:
             v = await node(*a)
         elif fn is aleaf:
